@@ -587,9 +587,9 @@ func registerL1Intrinsics() {
 		if src.kind != sConc || needle.kind != sConc {
 			in.fail("nd.LineOf needs concrete arguments")
 		}
-		i := strings.Index(src.conc, needle.conc)
-		if i < 0 {
-			in.fail("nd.LineOf: needle %q not found", needle.conc)
+		i, err := LineNeedleIndex(src.conc, needle.conc)
+		if err != "" {
+			in.fail("nd.LineOf: %s", err)
 		}
 		return in.St.Int(int64(1 + strings.Count(src.conc[:i], "\n")))
 	}
@@ -661,4 +661,18 @@ func (ex *Explorer) noteSkeleton(key string, files, holes int) {
 		ex.Skeletons[key] = fmt.Sprintf("%d files, %d holes", files, holes)
 	}
 	ex.mu.Unlock()
+}
+
+// LineNeedleIndex finds the landmark: the needle at the end of a line if that is unique, else the needle anywhere if unique.
+func LineNeedleIndex(src, needle string) (int, string) {
+	if strings.Count(src, needle+"\n") == 1 {
+		return strings.Index(src, needle+"\n"), ""
+	}
+	switch strings.Count(src, needle) {
+	case 0:
+		return -1, "needle \"" + needle + "\" not found"
+	case 1:
+		return strings.Index(src, needle), ""
+	}
+	return -1, "needle \"" + needle + "\" is not unique in the skeleton source (harness defect)"
 }
